@@ -4,7 +4,7 @@ Coq development against the regenerated constants, extracted model), paired exec
 operation files on the implementation and on the model, comparison, shrinking, evidence."""
 import hashlib, json, os, random, re, shutil, subprocess, sys, time
 
-VERIF = '/verif'
+VERIF = os.path.dirname(os.path.dirname(os.path.abspath(__file__)))     # /verif, or a snapshot of it (vp run)
 REPO = '/repo'
 BUILD = os.path.join(VERIF, 'build')
 COQ = os.path.join(VERIF, 'coq')
@@ -15,7 +15,7 @@ WORK = os.path.join(BUILD, 'work')
 REPLAYS = os.environ.get('VERIF_REPLAY_DIR', os.path.join(VERIF, 'replays'))
 EVIDENCE = os.environ.get('VERIF_EVIDENCE_DIR', os.path.join(VERIF, 'evidence'))   # trials against seeded changes redirect these
 GUARD = '--cfg abyssiniandb_verif'
-ENV = dict(os.environ, CARGO_NET_OFFLINE='true', RUSTFLAGS=GUARD)
+ENV = dict(os.environ, CARGO_NET_OFFLINE='true', RUSTFLAGS=GUARD, CARGO_TARGET_DIR=os.path.join(BUILD, 'cargo-target'))
 
 FORBIDDEN = re.compile(r'\b(Admitted|admit|Axiom|Axioms|Parameter|Parameters|Conjecture|Conjectures|Abort All|Unset Guard Checking|Unset Positivity Checking|Unset Universe Checking|bypass_check|type-in-type|impredicative-set|Admit Obligations)\b')
 
